@@ -5,6 +5,8 @@
 (* processes, each running                                                 *)
 (*                                                                         *)
 (*   Lookup      os.path.exists(dll)                 kerneldll.make_dll    *)
+(*   Mkdir       os.makedirs(cache directory, exist_ok=True): whoever comes *)
+(*               first creates it, the others find it there                 *)
 (*   WriteSrc    tempfile.mkstemp + write C source                         *)
 (*   CcBegin     the compiler/linker creates its output file (empty)       *)
 (*   CcHalf      ... has written part of it                                *)
@@ -29,7 +31,8 @@ EXTENDS Naturals, FiniteSets, TLC
 CONSTANTS Procs,        \* process identities (some start late = "the next attempt")
           MaxCrashes,
           Protocol,     \* "inplace" | "atomic"
-          SignalDeath   \* "failure" (a compiler killed by a signal is a failed compile) | "success" (failing control)
+          SignalDeath,  \* "failure" (a compiler killed by a signal is a failed compile) | "success" (failing control)
+          MkdirMode     \* "idempotent" (exist_ok=True) | "exclusive" (test-then-create: failing control)
 
 VARIABLES final,   \* state of the final library path: "absent" | "partial" | "complete"
           priv,    \* [Procs -> "absent" | "partial" | "complete"]  private compiler output (atomic)
@@ -37,10 +40,12 @@ VARIABLES final,   \* state of the final library path: "absent" | "partial" | "c
           pc,      \* [Procs -> label]
           cc,      \* [Procs -> BOOLEAN]  a compiler child of p is running (survives a kill of p)
           got,     \* [Procs -> "none" | "ok" | "bad"]  result of dlopen
+          dir,     \* BOOLEAN  the cache directory exists
+          seen,    \* [Procs -> BOOLEAN]  p found the directory missing when it looked (exclusive mode only)
           crashes
-vars == <<final, priv, src, pc, cc, got, crashes>>
+vars == <<final, priv, src, pc, cc, got, dir, seen, crashes>>
 
-Labels == {"idle", "lookup", "writesrc", "ccbegin", "cchalf", "ccend", "publish", "unlink",
+Labels == {"idle", "lookup", "mkdir", "broken", "writesrc", "ccbegin", "cchalf", "ccend", "publish", "unlink",
            "dlopen", "done", "dead", "failed"}
 
 Init ==
@@ -50,15 +55,26 @@ Init ==
     /\ pc = [p \in Procs |-> "idle"]
     /\ cc = [p \in Procs |-> FALSE]
     /\ got = [p \in Procs |-> "none"]
+    /\ dir = FALSE
+    /\ seen = [p \in Procs |-> FALSE]
     /\ crashes = 0
 
 Start(p) == /\ pc[p] = "idle"
             /\ pc' = [pc EXCEPT ![p] = "lookup"]
-            /\ UNCHANGED <<final, priv, src, cc, got, crashes>>
+            /\ UNCHANGED <<final, priv, src, cc, got, dir, seen, crashes>>
 
 Lookup(p) == /\ pc[p] = "lookup"
-             /\ pc' = [pc EXCEPT ![p] = IF final # "absent" THEN "dlopen" ELSE "writesrc"]
-             /\ UNCHANGED <<final, priv, src, cc, got, crashes>>
+             /\ pc' = [pc EXCEPT ![p] = IF final # "absent" THEN "dlopen" ELSE "mkdir"]
+             \* (exclusive mode tests for the directory here, before creating it in the next step)
+             /\ seen' = [seen EXCEPT ![p] = ~dir]
+             /\ UNCHANGED <<final, priv, src, cc, got, dir, crashes>>
+
+\* os.makedirs of the cache directory
+Mkdir(p) == /\ pc[p] = "mkdir"
+            /\ IF MkdirMode = "exclusive" /\ seen[p] /\ dir
+               THEN pc' = [pc EXCEPT ![p] = "broken"] /\ UNCHANGED dir       \* FileExistsError
+               ELSE pc' = [pc EXCEPT ![p] = "writesrc"] /\ dir' = TRUE
+            /\ UNCHANGED <<final, priv, src, cc, got, seen, crashes>>
 
 \* mkstemp + write of the C source; in the atomic protocol also mkstemp of the private output
 \* (an empty placeholder in the cache directory, never under the final name)
@@ -66,7 +82,7 @@ WriteSrc(p) == /\ pc[p] = "writesrc"
                /\ src' = [src EXCEPT ![p] = TRUE]
                /\ priv' = IF Protocol = "atomic" THEN [priv EXCEPT ![p] = "partial"] ELSE priv
                /\ pc' = [pc EXCEPT ![p] = "ccbegin"]
-               /\ UNCHANGED <<final, cc, got, crashes>>
+               /\ UNCHANGED <<final, cc, got, dir, seen, crashes>>
 
 \* the output file the compiler of p writes
 SetOut(p, v) == IF Protocol = "inplace"
@@ -78,32 +94,32 @@ CcBegin(p) == /\ pc[p] = "ccbegin"
               /\ SetOut(p, "partial")
               /\ cc' = [cc EXCEPT ![p] = TRUE]
               /\ pc' = [pc EXCEPT ![p] = "cchalf"]
-              /\ UNCHANGED <<src, got, crashes>>
+              /\ UNCHANGED <<src, got, dir, seen, crashes>>
 CcHalf(p) == /\ pc[p] = "cchalf"
              /\ pc' = [pc EXCEPT ![p] = "ccend"]
-             /\ UNCHANGED <<final, priv, src, cc, got, crashes>>
+             /\ UNCHANGED <<final, priv, src, cc, got, dir, seen, crashes>>
 CcEnd(p) == /\ pc[p] = "ccend"
             /\ SetOut(p, "complete")
             /\ cc' = [cc EXCEPT ![p] = FALSE]
             /\ pc' = [pc EXCEPT ![p] = IF Protocol = "atomic" THEN "publish" ELSE "unlink"]
-            /\ UNCHANGED <<src, got, crashes>>
+            /\ UNCHANGED <<src, got, dir, seen, crashes>>
 
 \* os.replace: atomic with respect to every other step
 Publish(p) == /\ pc[p] = "publish"
               /\ final' = priv[p]
               /\ priv' = [priv EXCEPT ![p] = "absent"]
               /\ pc' = [pc EXCEPT ![p] = "unlink"]
-              /\ UNCHANGED <<src, cc, got, crashes>>
+              /\ UNCHANGED <<src, cc, got, dir, seen, crashes>>
 
 Unlink(p) == /\ pc[p] = "unlink"
              /\ src' = [src EXCEPT ![p] = FALSE]
              /\ pc' = [pc EXCEPT ![p] = "dlopen"]
-             /\ UNCHANGED <<final, priv, cc, got, crashes>>
+             /\ UNCHANGED <<final, priv, cc, got, dir, seen, crashes>>
 
 Dlopen(p) == /\ pc[p] = "dlopen"
              /\ got' = [got EXCEPT ![p] = IF final = "complete" THEN "ok" ELSE "bad"]
              /\ pc' = [pc EXCEPT ![p] = "done"]
-             /\ UNCHANGED <<final, priv, src, cc, crashes>>
+             /\ UNCHANGED <<final, priv, src, cc, dir, seen, crashes>>
 
 \* SIGKILL of process p at any step; its compiler child, if any, dies too (killchild) or not
 Crash(p, killchild) ==
@@ -112,7 +128,7 @@ Crash(p, killchild) ==
     /\ crashes' = crashes + 1
     /\ pc' = [pc EXCEPT ![p] = "dead"]
     /\ cc' = [cc EXCEPT ![p] = IF killchild THEN FALSE ELSE @]
-    /\ UNCHANGED <<final, priv, src, got>>
+    /\ UNCHANGED <<final, priv, src, got, dir, seen>>
 \* the compiler child of a living process is killed after it has created (and half written) its output
 CcKilled(p) ==
     /\ pc[p] \in {"cchalf", "ccend"} /\ cc[p]
@@ -124,14 +140,14 @@ CcKilled(p) ==
        ELSE /\ pc' = [pc EXCEPT ![p] = "failed"]                                   \* compile_model raises
             /\ IF Protocol = "atomic" THEN priv' = [priv EXCEPT ![p] = "absent"] /\ UNCHANGED final   \* finally: unlink
                ELSE UNCHANGED <<final, priv>>
-    /\ UNCHANGED <<src, got>>
+    /\ UNCHANGED <<src, got, dir, seen>>
 \* an orphaned compiler finishes its output
 OrphanCcEnd(p) == /\ pc[p] = "dead" /\ cc[p]
                   /\ SetOut(p, "complete")
                   /\ cc' = [cc EXCEPT ![p] = FALSE]
-                  /\ UNCHANGED <<src, pc, got, crashes>>
+                  /\ UNCHANGED <<src, pc, got, dir, seen, crashes>>
 
-Step(p) == \/ Start(p) \/ Lookup(p) \/ WriteSrc(p) \/ CcBegin(p) \/ CcHalf(p) \/ CcEnd(p)
+Step(p) == \/ Start(p) \/ Lookup(p) \/ Mkdir(p) \/ WriteSrc(p) \/ CcBegin(p) \/ CcHalf(p) \/ CcEnd(p)
            \/ Publish(p) \/ Unlink(p) \/ Dlopen(p) \/ OrphanCcEnd(p)
 Next == \E p \in Procs : Step(p) \/ Crash(p, TRUE) \/ Crash(p, FALSE) \/ CcKilled(p)
 Spec == Init /\ [][Next]_vars /\ \A p \in Procs : WF_vars(Step(p))
@@ -151,5 +167,7 @@ NothingPartialLeft == ~CompilerRunning => final # "partial"
 \* with the atomic protocol the final name is never partial at all
 FinalNeverPartial == Protocol = "atomic" => final # "partial"
 \* liveness: every process that is not killed finishes
-Terminates == <>(\A p \in Procs : pc[p] \in {"done", "dead", "failed"})
+\* no process fails for a reason other than the death of its compiler
+NoneBroken == \A p \in Procs : pc[p] # "broken"
+Terminates == <>(\A p \in Procs : pc[p] \in {"done", "dead", "failed", "broken"})
 =============================================================================
